@@ -452,10 +452,8 @@ func (p *Parser) peek() byte {
 }
 
 func (p *Parser) peekTwo() (byte, byte) {
-	// TODO: This should loop for slow readers, e.g. those providing one byte at
-	// a time. Use a loop and test it with [testing/iotest.OneByteReader].
-	if int(p.bsp+1) >= len(p.bs) {
-		p.fill()
+	// Loop for slow readers, e.g. those providing one byte at a time.
+	for int(p.bsp+1) >= len(p.bs) && p.fill() > 0 {
 	}
 	if int(p.bsp) >= len(p.bs) {
 		return utf8.RuneSelf, utf8.RuneSelf
@@ -1067,24 +1065,32 @@ loop:
 // zshNumRange peeks at the bytes after '<' to check for a zsh numeric
 // range glob pattern like <->, <5->, <-10>, or <5-10>.
 func (p *Parser) zshNumRange() bool {
-	// Peeking a handful of bytes here should be enough.
-	// TODO: This should loop for slow readers, e.g. those providing one byte at
-	// a time. Use a loop and test it with [testing/iotest.OneByteReader].
-	if int(p.bsp) >= len(p.bs) {
-		p.fill()
+	isDigit := func(b byte) bool { return b >= '0' && b <= '9' }
+	// Loop for slow readers, e.g. those providing one byte at a time;
+	// we only decide once we see the byte following the digits.
+	for {
+		rest := p.bs[min(int(p.bsp), len(p.bs)):]
+		i := 0
+		for i < len(rest) && isDigit(rest[i]) {
+			i++
+		}
+		if i < len(rest) {
+			if rest[i] != '-' {
+				return false
+			}
+			i++
+			for i < len(rest) && isDigit(rest[i]) {
+				i++
+			}
+			if i < len(rest) {
+				return rest[i] == '>'
+			}
+		}
+		if len(rest) >= bufSize/2 || p.fill() == 0 {
+			// Too long to be a numeric range, or no more input.
+			return false
+		}
 	}
-	rest := p.bs[p.bsp:]
-	for len(rest) > 0 && rest[0] >= '0' && rest[0] <= '9' {
-		rest = rest[1:]
-	}
-	if len(rest) == 0 || rest[0] != '-' {
-		return false
-	}
-	rest = rest[1:]
-	for len(rest) > 0 && rest[0] >= '0' && rest[0] <= '9' {
-		rest = rest[1:]
-	}
-	return len(rest) > 0 && rest[0] == '>'
 }
 
 func (p *Parser) advanceLitNone(r rune) {
